@@ -91,7 +91,9 @@ type Config struct {
 	ResponseHeaders map[string][]string
 }
 
-var AllTransports = []string{"options", "get", "post", "multipart", "urlencoded", "graphql", "sse", "multipartmixed"}
+// AllTransports: the streaming transports come before POST, as the documentation says (POST accepts
+// every JSON POST whatever its Accept header, so registered after it they would never be chosen).
+var AllTransports = []string{"options", "get", "sse", "multipartmixed", "post", "multipart", "urlencoded", "graphql"}
 
 // New builds a handler.Server over s with the named transports.
 func New(s *proj.Server, cfg Config) *handler.Server {
